@@ -302,8 +302,8 @@ fn big_cases(ctx: &Ctx) -> Vec<BigCase> {
         Sched::fixed_cap(1000),
         Sched::fixed_cap(4096),
         Sched::fixed_cap(65_536),
-        Sched { caps: vec![3, 100_000, 1, 70_000, 9], cycle: true, pending: vec![true, false, true, true, false], pending_cycle: true, fail_from: None, fail_once_at: None, zero_write_from: None },
-        Sched { caps: vec![16_384, 16_383, 1], cycle: true, pending: vec![], pending_cycle: false, fail_from: None, fail_once_at: None, zero_write_from: None },
+        Sched { caps: vec![3, 100_000, 1, 70_000, 9], cycle: true, pending: vec![true, false, true, true, false], pending_cycle: true, fail_from: None, fail_once_at: None, zero_write_from: None, capacity: None },
+        Sched { caps: vec![16_384, 16_383, 1], cycle: true, pending: vec![], pending_cycle: false, fail_from: None, fail_once_at: None, zero_write_from: None, capacity: None },
     ];
     let n = ctx.tier.pick(1, 4);
     for rep in 0..n {
@@ -431,7 +431,7 @@ fn strategy(max_entries: usize) -> impl Strategy<Value = Case> {
     ];
     let pend = prop_oneof![2 => Just((vec![], false)), 2 => (proptest::collection::vec(any::<bool>(), 1..40), any::<bool>()), 1 => Just((vec![true, true, true, false], true))];
     (layout::layout(LGen { max_entries, big_runs: false }), caps, pend, any::<bool>(), prop_oneof![5 => Just(false), 1 => Just(true)])
-        .prop_map(|(l, (caps, cycle), (pending, pending_cycle), asyncio, spill)| Case { l, sched: Sched { caps, cycle, pending, pending_cycle, fail_from: None, fail_once_at: None, zero_write_from: None }, asyncio, spill })
+        .prop_map(|(l, (caps, cycle), (pending, pending_cycle), asyncio, spill)| Case { l, sched: Sched { caps, cycle, pending, pending_cycle, fail_from: None, fail_once_at: None, zero_write_from: None, capacity: None }, asyncio, spill })
 }
 
 pub fn run(ctx: &Ctx) {
